@@ -26,4 +26,6 @@ contract("uxarray.grid.grid.Grid.__ne__", props=["C20"],
          params={"self": "obj('Grid')", "other": "opaque"},
          returns="bool",
          ensures=[f"iff(result, not {_EQ})"],
-         options=_VIEW)
+         # abstract mode: anything else the method might consult (dimension sizes, derived tables, caches) is state that two equal
+         # grids need not share - an uninterpreted function of the grid object
+         options={**_VIEW, "abstract": True, "summaries": ["uxarray.grid.grid.Grid.sizes", "uxarray.grid.grid.Grid.dims"]})
